@@ -22,6 +22,7 @@ import (
 	"github.com/cosmos/cosmos-sdk/codec"
 	codectypes "github.com/cosmos/cosmos-sdk/codec/types"
 	cryptocodec "github.com/cosmos/cosmos-sdk/crypto/codec"
+	storetypes "github.com/cosmos/cosmos-sdk/store/types"
 	simutils "github.com/cosmos/cosmos-sdk/testutil/sims"
 	sdk "github.com/cosmos/cosmos-sdk/types"
 	authtypes "github.com/cosmos/cosmos-sdk/x/auth/types"
@@ -421,3 +422,76 @@ func ValOp(i int) Account { return Acct(fmt.Sprintf("valop%d", i)) }
 
 // ValCons returns the consensus address of genesis validator i.
 func ValCons(i int) sdk.ConsAddress { return sdk.ConsAddress(valKey(i).PubKey().Address()) }
+
+// DumpStores returns every key/value of every IAVL store of the last committed state, keyed by store name.
+func (n *Node) DumpStores() map[string]map[string][]byte {
+	cms := n.App.CommitMultiStore()
+	byName := cms.(interface {
+		StoreKeysByName() map[string]storetypes.StoreKey
+	}).StoreKeysByName()
+	out := map[string]map[string][]byte{}
+	for name, key := range byName {
+		if _, ok := key.(*storetypes.KVStoreKey); !ok {
+			continue
+		}
+		st := cms.GetKVStore(key)
+		m := map[string][]byte{}
+		it := st.Iterator(nil, nil)
+		for ; it.Valid(); it.Next() {
+			m[string(it.Key())] = append([]byte{}, it.Value()...)
+		}
+		it.Close()
+		out[name] = m
+	}
+	return out
+}
+
+// Diff describes one differing key between two store dumps.
+type Diff struct {
+	Store string
+	Key   []byte
+	A, B  []byte
+}
+
+// DiffStores lists the keys whose values differ between two dumps (sorted by store, key).
+func DiffStores(a, b map[string]map[string][]byte) []Diff {
+	var out []Diff
+	names := map[string]bool{}
+	for k := range a {
+		names[k] = true
+	}
+	for k := range b {
+		names[k] = true
+	}
+	var ns []string
+	for k := range names {
+		ns = append(ns, k)
+	}
+	sort.Strings(ns)
+	for _, name := range ns {
+		keys := map[string]bool{}
+		for k := range a[name] {
+			keys[k] = true
+		}
+		for k := range b[name] {
+			keys[k] = true
+		}
+		var ks []string
+		for k := range keys {
+			ks = append(ks, k)
+		}
+		sort.Strings(ks)
+		for _, k := range ks {
+			va, oka := a[name][k]
+			vb, okb := b[name][k]
+			if oka != okb || string(va) != string(vb) {
+				out = append(out, Diff{Store: name, Key: []byte(k), A: va, B: vb})
+			}
+		}
+	}
+	return out
+}
+
+func (d Diff) String() string {
+	return fmt.Sprintf("%s/%X: %X -> %X", d.Store, d.Key, d.A, d.B)
+}
